@@ -179,7 +179,7 @@ Lemma generate_key_ok c w k w' :
   let sid := length (w_secrets w) in
   k = length (w_kobjs w) /\
   w_kobjs w' = w_kobjs w ++ [{| ko_created := c; ko_secret := sid; ko_revoked := false; ko_once := false; ko_refs := 0 |}] /\
-  w_secrets w' = w_secrets w ++ [{| s_mat := PKey sid; s_closed := false |}] /\ w_nonce w' = w_nonce w.
+  w_secrets w' = w_secrets w ++ [{| s_mat := PKey sid; s_closed := false |}] /\ w_nonce w' = w_nonce w /\ w_store w' = w_store w.
 Proof.
   unfold generate_key. intro H. apply bind_ok in H as [sid [w1 [SR H]]].
   unfold secret_random in SR. apply bind_ok in SR as [f [w0 [NC SR]]].
@@ -203,7 +203,7 @@ Theorem encrypt_with_ik_fresh e ik payload w d w' :
 Proof.
   unfold encrypt_with_ik. intro H.
   apply bind_ok in H as [now [w0 [GN H]]]. unfold get_now, gets in GN. inversion GN; subst. clear GN.
-  apply bind_ok in H as [drk [w1 [GK H]]]. apply generate_key_ok in GK as [Ek [K1 [S1 N1]]].
+  apply bind_ok in H as [drk [w1 [GK H]]]. apply generate_key_ok in GK as [Ek [K1 [S1 [N1 _]]]].
   apply finally_ok in H as [w2 [H _]].
   apply bind_ok in H as [drkb [w3 [B1 H]]]. apply key_bytes_ok in B1 as [-> [o1 [sc1 [Ko [So [_ ->]]]]]].
   rewrite K1, Ek in Ko. rewrite nth_error_app2 in Ko by lia. rewrite Nat.sub_diag in Ko. inversion Ko; subst o1. clear Ko.
